@@ -67,6 +67,22 @@ fn push_extw(o: u8, h: Weak<Node>) {
 
 pub struct ScriptPanic(pub u8);
 
+static BENIGN_CLONE_OWN: G<bool> = G(UnsafeCell::new(false));
+static IN_CALL: G<bool> = G(UnsafeCell::new(false));
+
+/// In a dry run a `CloneOwn` script only notes the moment at which it would
+/// clone (C16: the real run is expected to end the process there).
+pub fn set_benign_clone_own(on: bool) {
+    unsafe { *BENIGN_CLONE_OWN.0.get() = on }
+}
+
+static BENIGN_ACTIVE: G<bool> = G(UnsafeCell::new(false));
+
+/// the dry run only concerns the operation being explored, not the prefix
+fn benign_clone_own() -> bool {
+    unsafe { *BENIGN_ACTIVE.0.get() }
+}
+
 fn box_layout() -> [usize; 5] {
     verif::box_layout::<Node>()
 }
@@ -99,6 +115,10 @@ pub fn global_init() {
             "<non-string panic>".to_string()
         };
         let loc = info.location().map(|l| format!("{}:{}", l.file(), l.line())).unwrap_or_default();
+        let in_call = unsafe { *IN_CALL.0.get() };
+        if !in_call {
+            eprintln!("harness panic outside a library call: {msg} @ {loc}");
+        }
         if let Some(world) = unsafe { (*WORLD.0.get()).as_mut() } {
             if world.panic_msg.is_none() {
                 world.panic_msg = Some(format!("{msg} @ {loc}"));
@@ -338,12 +358,14 @@ fn run_script(node: &Node) {
             std::panic::panic_any(ScriptPanic(id));
         }
         Script::CloneOwn(k) => {
-            let c = {
-                let s = node.slots.borrow();
-                s.get(k as usize).map(|s| (s.target, Rc::clone(s.handle())))
-            };
-            match c {
-                Some((t, h)) => {
+            let tgt = node.slots.borrow().get(k as usize).map(|s| s.target);
+            match tgt {
+                Some(t) if benign_clone_own() => {
+                    // dry run: only note that the handle would be cloned now
+                    emit(Ev::Script(id, Script::CloneRoot(t), 2));
+                }
+                Some(t) => {
+                    let h = Rc::clone(node.slots.borrow()[k as usize].handle());
                     emit(Ev::Script(id, Script::CloneRoot(t), 1));
                     push_ext(t, h);
                 }
@@ -447,7 +469,10 @@ impl<'a> Exec<'a> {
         w().panic_msg = None;
         let r = {
             let _t = Tracking::on();
-            catch_unwind(AssertUnwindSafe(f))
+            unsafe { *IN_CALL.0.get() = true };
+            let r = catch_unwind(AssertUnwindSafe(f));
+            unsafe { *IN_CALL.0.get() = false };
+            r
         };
         let mut script_panic = false;
         let mut panicked = false;
@@ -516,8 +541,16 @@ impl<'a> Exec<'a> {
                 m.new_object();
             }
             Script::CloneRoot(t) => {
-                if !m.live(t) {
-                    m.viol.push(Viol { clause: "K16", sig: "clone-of-dead-handle-returned".into(), detail: format!("a destructor cloned a handle to destroyed object {t} and the call returned") });
+                let dead = !m.live(t) || m.must_die & (1 << t) != 0;
+                if res == 2 {
+                    // dry run of a CloneOwn script
+                    if dead {
+                        m.noted_dead_clone = true;
+                    }
+                    return;
+                }
+                if dead {
+                    m.viol.push(Viol { clause: "K16", sig: "clone-of-dead-handle-returned".into(), detail: format!("a destructor cloned a handle to object {t}, which is destroyed or being destroyed by the running call, and the clone returned") });
                 }
                 m.ext[t as usize] += 1;
             }
@@ -1241,7 +1274,11 @@ impl<'a> Exec<'a> {
         }
         let live: Vec<u8> = (0..self.mon.n).map(|o| self.mon.live(o) as u8).collect();
         fnv(&mut d, &live);
-        fnv(&mut d, &galloc::st().live_bytes.to_le_bytes());
+        // heap bytes are comparable only when nothing is left alive (a leaked
+        // object keeps buffers whose capacity depends on its past)
+        if live.iter().all(|&l| l == 0) {
+            fnv(&mut d, &galloc::st().live_bytes.to_le_bytes());
+        }
         d
     }
 }
@@ -1309,12 +1346,14 @@ pub fn run_history_from(cfg: &crate::ops::Config, layout_index: u16, ops: &[Op],
     ex.check_cost = check_cost;
     for (i, &op) in ops.iter().enumerate() {
         ex.observing = i >= validated;
+        unsafe { *BENIGN_ACTIVE.0.get() = *BENIGN_CLONE_OWN.0.get() && i >= validated };
         ex.step(op);
         if !ex.mon.viol.is_empty() {
             break;
         }
     }
     ex.observing = true;
+    unsafe { *BENIGN_ACTIVE.0.get() = false };
     let key = ex.out.key;
     let died = ex.out.died_last;
     let mon_at_end = ex.mon.clone();
